@@ -13,11 +13,18 @@ def run_job(job):
     return [('DEP-' + r, k, ok, d, s) for (r, k, ok, d, s) in mod.run_job(j)]
 
 
+def have_kernel():
+    from ..harness import get_db
+    return c05.kernel_fn(get_db(), required=False) is not None
+
+
 def jobs_R():
     jobs = []
+    hk = have_kernel()
     for mode in c05.MODES:
         for via_none in (False, True):
-            jobs.append(('c05', ('kernel', mode, via_none)))
+            if hk:
+                jobs.append(('c05', ('kernel', mode, via_none)))
             for yc in c05.Y_CELLS:
                 jobs.append(('c05', ('divr', mode, via_none, yc)))
     jobs += [('c05', ('floor', yc)) for yc in c05.Y_CELLS]
@@ -72,7 +79,8 @@ def run(rep, tier, which=('R', 'W')):
                 return self.rep.ob('DEP-' + rule, key, ok, detail, site, sample)
         tls.run(_Sub(rep), get_db(), std=True)
     if 'R' in which:
-        rep.floor('DEP-K-ROUND-QUOT', 16)
+        if have_kernel():
+            rep.floor('DEP-K-ROUND-QUOT', 16)
         rep.floor('DEP-R-DIV-ROUNDED', 64)
         rep.floor('DEP-F-DIV-MOD-FLOOR', 4)
     if wk:
